@@ -11,7 +11,7 @@
    descriptor semantics = the type_new contract, exercised by the oracle, not proved. *)
 From Coq Require Import List String Bool.
 Import ListNotations.
-Require Import TL.Model.Slotted TL.Proofs.SlottedLemmas.
+Require Import TL.Model.Slotted TL.Model.SlottedState TL.Proofs.SlottedLemmas TL.Proofs.SlottedStateLemmas.
 
 (* ---- the full statement (data level), false of the faithful model: zero-arg super ---- *)
 Definition C19_full : Prop :=
@@ -125,6 +125,16 @@ Theorem C19_super_safe : forall fl (st st' : stack) c n d,
   c_cells c = [] -> forall a, In a (c_stale n) -> In a (c_stale c).
 Proof. exact st_super_safe. Qed.
 
+(* ---- copy / pickle of frozen slotted instances: _slots_setstate --------------------------- *)
+(* For every well-formed instance (any slot names, any values, with or without an instance __dict__, any
+   content of it) whose default state is not a bare non-empty dict: __new__ + _slots_setstate(__getstate__())
+   rebuilds the same slot values AND the same instance __dict__ (object.__getstate__ is a contract, sampled
+   against the interpreter on every run). *)
+Theorem C19_setstate_restores : forall i, wf_inst i = true -> state_guard i = true ->
+  exists r, restore i = SOk r /\ i_slotnames r = i_slotnames i
+            /\ same_store (i_slots r) (i_slots i) /\ same_dict (i_dict r) (i_dict i).
+Proof. exact restore_ok. Qed.
+
 (* ======================= witnesses ======================================================= *)
 Definition S (s : string) : string := s.
 Definition dunders : cdict :=
@@ -201,6 +211,25 @@ Proof.
   apply (Hs "describe"%string). left. reflexivity.
 Qed.
 
+(* open (known finding KF-C19-setstate-bare-dict-state): a frozen slotted class WITHOUT any member slot
+   holding a value but WITH a non-empty instance __dict__ has the bare dict as its state; _slots_setstate
+   iterates it as if it were the (dict, slots) pair and fails on the first key *)
+Definition ex_dict_only : inst :=
+  {| i_slotnames := []; i_slots := []; i_dict := Some [("_derived"%string, OId 1)] |}.
+Theorem C19_refuted_setstate_bare_dict : exists i,
+  wf_inst i = true /\ state_guard i = false /\ restore i = SRaise SAttribute.
+Proof. exists ex_dict_only. vm_compute. repeat split. Qed.
+
+Definition ex_inst : inst :=
+  {| i_slotnames := ["a"; "b"]%string; i_slots := [("b"%string, OId 2); ("a"%string, OId 1)];
+     i_dict := Some [("_derived"%string, OId 3); ("cp"%string, OId 4)] |}.
+Example C19_setstate_hyps_satisfiable :
+  wf_inst ex_inst = true /\ state_guard ex_inst = true /\
+  getstate ex_inst = SSeq [Some [("_derived"%string, OId 3); ("cp"%string, OId 4)];
+                           Some [("b"%string, OId 2); ("a"%string, OId 1)]] /\
+  restore ex_inst = SOk ex_inst.
+Proof. vm_compute. repeat split. Qed.
+
 (* fixed (proposed_fixes/C19-extras-base-conflict.diff): on the pinned code the default weakref=True
    on a child of an unslotted base makes type() raise TypeError, and the guard keeps the entry *)
 Theorem C19_refuted_weakref_base : exists c,
@@ -240,6 +269,8 @@ Print Assumptions C19_preserved.
 Print Assumptions C19_nothing_else.
 Print Assumptions C19_defaults.
 Print Assumptions C19_super_safe.
+Print Assumptions C19_setstate_restores.
+Print Assumptions C19_refuted_setstate_bare_dict.
 Print Assumptions C19_refuted_zero_arg_super.
 Print Assumptions C19_full_is_false.
 Print Assumptions C19_refuted_weakref_base.
